@@ -32,15 +32,21 @@ PlainRel(n, rw, restr) == [name |-> n, module |-> "", file |-> "", rw |-> rw, re
 \* (the expression of variant 2 spans two lines, the continuation line indented by four blanks: the DSL carries it verbatim)
 C1 == [name |-> "c1", module |-> "", file |-> "",
        params |-> <<[name |-> "x", ty |-> "TYPE_NAME_INT", elem |-> ""], [name |-> "ys", ty |-> "TYPE_NAME_LIST", elem |-> "TYPE_NAME_STRING"],
-                    [name |-> "m", ty |-> "TYPE_NAME_MAP", elem |-> "TYPE_NAME_BOOL"]>>,
-       expr |-> "x < 10 && ys[0] == \"a\""]
+                    [name |-> "m", ty |-> "TYPE_NAME_MAP", elem |-> "TYPE_NAME_BOOL"],
+                    \* a second list and a second map with other element types, and every scalar type
+                    [name |-> "zs", ty |-> "TYPE_NAME_LIST", elem |-> "TYPE_NAME_INT"], [name |-> "n", ty |-> "TYPE_NAME_MAP", elem |-> "TYPE_NAME_UINT"],
+                    [name |-> "d", ty |-> "TYPE_NAME_DOUBLE", elem |-> ""], [name |-> "t", ty |-> "TYPE_NAME_DURATION", elem |-> ""],
+                    [name |-> "ip", ty |-> "TYPE_NAME_IPADDRESS", elem |-> ""], [name |-> "ok", ty |-> "TYPE_NAME_BOOL", elem |-> ""],
+                    [name |-> "s", ty |-> "TYPE_NAME_STRING", elem |-> ""], [name |-> "at", ty |-> "TYPE_NAME_TIMESTAMP", elem |-> ""],
+                    [name |-> "u", ty |-> "TYPE_NAME_UINT", elem |-> ""]>>,
+       expr |-> "x < 10 && ys[0] == \"a\" && x % 2 == 0 && s != \"100%\""]
 WrapTree(t, v) ==
   [schema |-> "1.1",
    types |-> << [name |-> "user", module |-> "", file |-> "", rels |-> <<>>],
                 [name |-> "doc", module |-> "", file |-> "",
                  rels |-> << PlainRel("a", [k |-> "this"], <<Ty("user")>>), PlainRel("b", [k |-> "this"], <<Ty("user")>>),
                              PlainRel("p", [k |-> "this"], <<Ty("doc")>>), PlainRel("x", t, RestrVariant(v)) >>] >>,
-   conds |-> IF v = 0 THEN <<>> ELSE IF v = 1 THEN <<C1>> ELSE <<[C1 EXCEPT !.expr = "x < 10 &&\n    ys[0] == \"a\""]>>]
+   conds |-> IF v = 0 THEN <<>> ELSE IF v = 1 THEN <<C1>> ELSE <<[C1 EXCEPT !.expr = "x < 10 &&\n    ys[0] == \"a\" && x % 3 == 1"]>>]
 
 \* a short deterministic key of a tree (used as record id and to rotate the restriction variants)
 RECURSIVE Key(_)
@@ -54,8 +60,17 @@ TreeRec(t) == LET v == Len(Key(t)) % 3
               IN [rec |-> "tree", id |-> Key(t), m |-> M, expressible |-> Expressible(t), accepts |-> PrinterAccepts(t),
                   print |-> IF PrinterAccepts(t) THEN PrintM(M, FALSE) ELSE "", norm |-> IF Expressible(t) THEN NormM(M) ELSE <<>>,
                   assignable |-> CountThis(t) > 0]
-TreesInit == st \in { [ph |-> "todo", v |-> t] : t \in TreeSet }
-TreesNext == st.ph = "todo" /\ st' = [st EXCEPT !.ph = "done"] /\ PrintT(ToJson(TreeRec(st.v)))
+\* models the DSL grammar has no words for although their rewrites nest well: a condition parameter of type `any` (alone, or as the
+\* element type of a list / a map). The printer writes `any`; the parameter-type rule of the grammar does not know it (finding D20).
+AnyParams == << <<[name |-> "v", ty |-> "TYPE_NAME_ANY", elem |-> ""]>>,
+                <<[name |-> "x", ty |-> "TYPE_NAME_INT", elem |-> ""], [name |-> "vs", ty |-> "TYPE_NAME_LIST", elem |-> "TYPE_NAME_ANY"]>>,
+                <<[name |-> "vm", ty |-> "TYPE_NAME_MAP", elem |-> "TYPE_NAME_ANY"], [name |-> "x", ty |-> "TYPE_NAME_INT", elem |-> ""]>> >>
+AnyRec(i) == LET t == [k |-> "this"]
+                 M == [WrapTree(t, 1) EXCEPT !.conds = <<[C1 EXCEPT !.params = AnyParams[i], !.expr = "x < 10"]>>]
+             IN [rec |-> "tree", id |-> "any" \o ToString(i), m |-> M, expressible |-> TRUE, accepts |-> TRUE, print |-> PrintM(M, FALSE), norm |-> NormM(M), assignable |-> TRUE]
+TreesInit == st \in { [ph |-> "todo", v |-> t] : t \in TreeSet } \cup { [ph |-> "todoany", v |-> [k |-> "any", i |-> i]] : i \in 1..Len(AnyParams) }
+TreesNext == \/ st.ph = "todo" /\ st' = [st EXCEPT !.ph = "done"] /\ PrintT(ToJson(TreeRec(st.v)))
+             \/ st.ph = "todoany" /\ st' = [st EXCEPT !.ph = "doneany"] /\ PrintT(ToJson(AnyRec(st.v.i)))
 \* evaluated on the states the workers produce, not on the initial states (those are computed on one thread)
 TreesOK == st.ph = "done" => ExpressibleIffPrintable(st.v) /\ AssignableIffBracket(st.v)
 
@@ -63,7 +78,8 @@ TreesOK == st.ph = "done" => ExpressibleIffPrintable(st.v) /\ AssignableIffBrack
 (* Attribution universe (C14)                                              *)
 (***************************************************************************)
 CONSTANTS TypeAttrs, RelAttrs, CondAttrs      \* sets of indices into AttrPool
-AttrPool == << <<"", "">>, <<"m1", "a.fga">>, <<"m2", "a.fga">>, <<"m1", "b c.fga">>, <<"m2", "">>, <<"", "d#e.fga">>, <<"m1", "z, file: q.fga">> >>
+AttrPool == << <<"", "">>, <<"m1", "a.fga">>, <<"m2", "a.fga">>, <<"m1", "b c.fga">>, <<"m2", "">>, <<"", "d#e.fga">>, <<"m1", "z, file: q.fga">>,
+              <<"m2", "dir\ncore.fga">> >>      \* a file name with a line break (reachable through JSON / protobuf only)
 At(x, i) == [x EXCEPT !.module = AttrPool[i][1], !.file = AttrPool[i][2]]
 AttrModel(c) ==    \* c = [t1, t2, r1, r2, r3, c1, c2] indices into AttrPool
   [schema |-> "1.2",
